@@ -3,8 +3,9 @@ import NeatviVerif.Lemmas.C05bEx
 # C05b, `ex_region`: a whole address (`a,b;c…`) keeps every number inside `int`
 
 `AddrFits` is an invariant of address evaluation: `ex_lineno` changes the search keyword only, `;` sets the
-current row to a value in `[-1, NUMMAX]`; hence every call of `ex_lineno` inside `ex_region` is covered by
-`exLineno_bounded`, and `beg` / `end` stay within `[-1, NUMMAX + 1]`.
+current row to a value in `[-1, NUMMAX]`; hence every call of `ex_lineno` inside `ex_region` starts its sum
+inside `long long` (`exLinenoChk_eq`), every result is within `±NUMMAX` (`exLineno_bounded`), and `beg` /
+`end` stay within `[-1, NUMMAX + 1]`.
 -/
 namespace Neatvi.Lemmas.C05b
 open Neatvi Neatvi.Lbuf Neatvi.Ex Neatvi.Lemmas.C06
@@ -76,7 +77,7 @@ theorem exLineno_fits (ed : Ed) (loc : Bytes) (r : Int × Bytes) (ed' : Ed) (hf 
     (h : exLineno ed loc = some (r, ed')) : AddrFits ed' :=
   hf.of_kwOnly (exLineno_kwOnly ed loc r ed' h)
 
-/-- the loop of `ex_region`: the state stays in range (so every `ex_lineno` it calls is bounded), and the
+/-- the loop of `ex_region`: the state stays in range (so no `ex_lineno` it calls overflows), and the
     pair it delivers is the failure marker `(-7, -7)` or has `-1 ≤ beg ≤ NUMMAX`, `0 ≤ end ≤ NUMMAX + 1` -/
 theorem go_bounded : ∀ (f : Nat) (ed : Ed) (loc : Bytes) (naddr : Nat) (b e : Int) (r : Int × Int) (ed' : Ed),
     AddrFits ed → -1 ≤ b → b ≤ NUMMAX → 0 ≤ e → e ≤ NUMMAX + 1 →
@@ -98,7 +99,7 @@ theorem go_bounded : ∀ (f : Nat) (ed : Ed) (loc : Bytes) (naddr : Nat) (b e : 
       · cases h
       · rename_i n rest ed1 hl
         have hf1 := exLineno_fits _ _ _ _ hf hl
-        obtain ⟨n0, n1⟩ := exLineno_bounded _ _ hf _ _ _ hl
+        obtain ⟨n0, n1⟩ := exLineno_bounded _ _ _ _ _ hl
         split at h
         · cases h; exact ⟨hf1, Or.inl rfl⟩
         · rename_i hn
